@@ -2,7 +2,7 @@
    All arithmetic over Z with 2^64 and isize::MAX explicit.  The functions involved are
    regenerated from /repo on every run and proved equal to Scalar.v for BOTH profiles (Equiv.v). *)
 From Coq Require Import ZArith List String Bool Lia.
-From MV Require Import Ast Eval Scalar Machine Model Policy Equiv.
+From MV Require Import Ast Eval Scalar Machine Model Policy EquivDefs Equiv.
 From MV.Gen Require Import AstGen.
 From MV.Proofs Require Import Arith Logic Prim View OpsLocal Grow CapHistory.
 Import ListNotations.
